@@ -176,27 +176,38 @@ Definition fw_arg (m : method) (val : tag -> fval) (p : text) (s : slot) : sarg 
 Definition fw_args (m : method) (val : tag -> fval) (b : binding) : list (text * sarg) :=
   map (fun ps => (fst ps, fw_arg m val (fst ps) (snd ps))) b.
 
-(* a parameter that only qualifies another one has no effect when that one is omitted
-   (LCD.message: the alignment of a row that is not written) - the vector the correspondence compares *)
-Definition arg_dependencies : list (text * (text * text)) := Eval vm_compute in [
-  (T "LCD.message", (T "top_align", T "top"));
-  (T "LCD.message", (T "bottom_align", T "bottom"))
+(* the vector the correspondence compares.  A parameter that only qualifies others has no effect when all of
+   them are omitted (LCD.message: the alignment of a row that is not written; clear_rows when no row is written);
+   an omitted argument whose omitted code is the same as a constant is that constant (LCD.progress: no label
+   is the empty label). *)
+Definition arg_dependencies : list (text * (text * list text)) := Eval vm_compute in [
+  (T "LCD.message", (T "top_align", [T "top"]));
+  (T "LCD.message", (T "bottom_align", [T "bottom"]));
+  (T "LCD.message", (T "clear_rows", [T "top"; T "bottom"]))
 ].
-Definition master_of (m : method) (p : text) : option text :=
+Definition omitted_means : list (text * (text * cst)) := Eval vm_compute in [
+  (T "LCD.progress", (T "label", CStr []))
+].
+Definition masters_of (m : method) (p : text) : list text :=
   match filter (fun d => text_eqb m (fst d) && text_eqb p (fst (snd d))) arg_dependencies with
+  | d :: _ => snd (snd d)
+  | [] => []
+  end.
+Definition omitted_const (m : method) (p : text) : option cst :=
+  match filter (fun d => text_eqb m (fst d) && text_eqb p (fst (snd d))) omitted_means with
   | d :: _ => Some (snd (snd d))
   | [] => None
   end.
 Definition is_omitted (a : sarg) : bool := match a with AOmitted => true | AGiven (FConst CNone) => true | _ => false end.
 Definition fw_vector (m : method) (val : tag -> fval) (b : binding) : list (text * sarg) :=
   let args := fw_args m val b in
-  map (fun pa => match master_of m (fst pa) with
-                 | Some q => match tlookup q args with
-                             | Some a => if is_omitted a then (fst pa, AOmitted) else pa
-                             | None => pa
-                             end
-                 | None => pa
-                 end) args.
+  map (fun pa =>
+         let a := match masters_of m (fst pa) with
+                  | [] => snd pa
+                  | qs => if forallb (fun q => match tlookup q args with Some x => is_omitted x | None => false end) qs
+                          then AOmitted else snd pa
+                  end in
+         (fst pa, if is_omitted a then match omitted_const m (fst pa) with Some c => AGiven (FConst c) | None => a end else a)) args.
 
 (* ------------------------------------------------------------------ decidable checks over the regenerated table *)
 Definition tests_ok : bool :=
